@@ -42,6 +42,9 @@ WRAPS = [('top', '', '', None), ('arg', '\\xxx{', '}', None), ('item', '\\begin{
          ('heading', '\\section{', '}', '.'), ('group', '{', '}', None)]
 PAIR_USES = [[a, b] for a in ('brace', 'tok', 'opt', 'omit', 'nested') for b in ('brace', 'opt', 'emptyopt', 'omit', 'nested')]
 ROUTES = ['doc', 'defs', 'ltinput']
+# option sets under which the three routes are compared: default; Latin-1 input encoding with a non-ASCII character in the
+# definitions; --nosp together with the preamble line the README prescribes (\newcommand{\LTinput}[1]{} has to be ignored)
+VARIANTS = ['std', 'latin1', 'nosp']
 
 
 def defsrc(definer, name, body, n, default):
@@ -317,7 +320,7 @@ class C09:
 
     def bounds(self, tier):
         return {'bodies': [b[0] for b in BODIES], 'definers': DEFINERS, 'use_shapes': USES, 'pairs_of_uses': len(PAIR_USES), 'contexts_of_the_uses': [w[0] for w in WRAPS], 'definition_layouts': LAYOUTS,
-                'routes': ROUTES}
+                'routes': ROUTES, 'option_variants': VARIANTS}
 
     def cases(self, tier, seed):
         for bi in range(len(BODIES)):
@@ -328,6 +331,9 @@ class C09:
                 for ui in range(len(USES)):
                     for wi in range(1, len(WRAPS)):
                         yield [bi, definer, ui, 'lines', wi]
+                for ui in (0, 2, 6, 11):
+                    for variant in VARIANTS[1:]:
+                        yield [bi, definer, ui, 'lines', 0, variant]
                 for pi in range(len(PAIR_USES)):
                     for wi in range(len(WRAPS) if tier != 'quick' else 2):
                         yield [bi, definer, -pi - 1, 'lines' if (pi + wi) % 2 else 'indented', wi]
@@ -342,16 +348,27 @@ class C09:
         flows = ctx.flows()
         viol = []
         results = {}
+        variant = case[5] if len(case) > 5 else 'std'
+        extra = {}
+        enc = 'utf-8'
+        lt_pre = ''
+        if variant == 'latin1':
+            dtxt = dtxt + '\\newcommand{\\unusedq}{\u00e4\u00f6\u00fc}\n'
+            extra = {'ienc': 'latin-1'}
+            enc = 'latin-1'
+        elif variant == 'nosp':
+            extra = {'nosp': True}
+            lt_pre = '\\newcommand{\\LTinput}[1]{}\n'
         tag = '%s:%s:%s' % (BODIES[bi][0], definer, '+'.join(USES[ui] if ui >= 0 else PAIR_USES[-ui - 1]))
-        with open('ymcdefs.tex', 'w') as f:
+        with open('ymcdefs.tex', 'w', encoding=enc) as f:
             f.write(dtxt)
         for route in ROUTES:
             if route == 'doc':
-                prefix, opts = dtxt, {'pack': '*', 'lang': 'en'}
+                prefix, opts = dtxt, dict({'pack': '*', 'lang': 'en'}, **extra)
             elif route == 'defs':
-                prefix, opts = '', {'pack': '*', 'lang': 'en', 'defs': dtxt}
+                prefix, opts = '', dict({'pack': '*', 'lang': 'en', 'defs': dtxt}, **extra)
             else:
-                prefix, opts = '\\LTinput{ymcdefs.tex}\n', {'pack': '*', 'lang': 'en'}
+                prefix, opts = lt_pre + '\\LTinput{ymcdefs.tex}\n', dict({'pack': '*', 'lang': 'en'}, **extra)
             src = prefix + body
             o = impl.run_filter(src, opts)
             if o.kind != 'ok':
